@@ -84,5 +84,64 @@ def cases(tier, rng):
         yield J('join_poly_bbox', w, *flat(pts))
         if rng.random() < 0.5:
             yield J('join_poly_rects', w, *flat(pts))
+    # thick triangles: the only public way to LineJoin::from_points with StrokeOffset::Left / Right
+    for _ in range(n):
+        t = flat(tri_pts(rng))
+        w = rng.choice([0, 1, 2, 3, 4, 5, 6, 8, 10, rng.randrange(2, 24)])
+        al, fl = rng.randrange(3), rng.randrange(2)
+        yield J(rng.choice(['join_tri_pixels', 'join_tri_pixels', 'join_tri_rects']), w, al, fl, *t)
+        yield J('join_tri_bbox', w, al, fl, *t)
     if HOOK_SUITES:
         yield from hook_cases(tier, rng, n)
+
+
+def tri_pts(rng):
+    c = rng.choice([c_small, c_mid, c_mid, lambda r: r.randrange(-200, 201)])
+    k = rng.random()
+    a = (c(rng), c(rng))
+    if k < 0.15:     # sharp: two vertices close together, far from the third
+        b = (a[0] + rng.randrange(-3, 4), a[1] + rng.randrange(-3, 4))
+        return [a, b, (c(rng), c(rng))]
+    if k < 0.25:     # nearly flat
+        b = (c(rng), c(rng))
+        m = rng.choice([2, 3])
+        return [a, b, (a[0] + (b[0] - a[0]) // m + rng.choice([0, 1, -1]), a[1] + (b[1] - a[1]) // m + rng.choice([1, -1, 2]))]
+    return [a, (c(rng), c(rng)), (c(rng), c(rng))]
+
+
+def tame_path(rng, w, n, closed=False):
+    """vertices with segment lengths >= 6w and interior angles >= 15 degrees (what p_thick's geometric reference needs);
+    a third of the joins are sharp (15..35 degrees: around the miter limit), the rest anything up to straight"""
+    import math
+    for _ in range(50):
+        x, y = rng.randrange(-40, 41), rng.randrange(-40, 41)
+        heading = rng.uniform(0, 2 * math.pi)
+        pts = [(x, y)]
+        for k in range(n - 1):
+            ln = rng.uniform(6.2 * w + 1, 6.2 * w + 40)
+            x, y = x + ln * math.cos(heading), y + ln * math.sin(heading)
+            pts.append((round(x), round(y)))
+            interior = rng.uniform(16, 36) if rng.random() < 0.35 else rng.uniform(16, 180)
+            heading += (math.pi - math.radians(interior)) * rng.choice([-1, 1])
+        if not closed:
+            return pts
+        # triangle: accept when the closing side and both new angles are tame as well
+        def ang(a, b, c):
+            u = (a[0] - b[0], a[1] - b[1]); v = (c[0] - b[0], c[1] - b[1])
+            d = math.hypot(*u) * math.hypot(*v)
+            return math.degrees(math.acos(max(-1, min(1, (u[0] * v[0] + u[1] * v[1]) / d)))) if d else 0
+        a, b, c = pts
+        if math.hypot(a[0] - c[0], a[1] - c[1]) >= 6 * w + 1 and min(ang(c, a, b), ang(a, b, c), ang(b, c, a)) >= 15.5:
+            return pts
+    return pts
+
+
+def search(tier, rng):
+    n = 2500 if tier == 'quick' else 50000
+    for _ in range(n):
+        w = rng.choice([2, 3, 3, 4, 5, 6, 7, 8, 10, 12])
+        yield J('p_thick poly', w, *flat(tame_path(rng, w, rng.choice([2, 3, 3, 4, 5]))))
+        yield J('p_thick tri', w, rng.randrange(3), *flat(tame_path(rng, w, 3, closed=True)))
+        if rng.random() < 0.5:   # anything: pixels() = draw(), inside the styled bounding box
+            yield J('p_thick poly', width(rng), *flat(poly_pts(rng)))
+            yield J('p_thick tri', width(rng), rng.randrange(3), *flat(tri_pts(rng)))
